@@ -60,9 +60,37 @@ def make_factory(stop, base_constants=False, two=False, grid=(1.0, 1.0)):
     return factory
 
 
+def make_file_factory(stop, base_constants, workdir):
+    """the same reference model and scenarios, but delivered the way a deployed server gets them: an XMILE source and a JSON
+    scenario file in the scenarios/ folder of the working directory, read by every bptk() the factory constructs"""
+    import os
+    from . import xmile_gen as X
+    BPTK_Py = use_repo()
+    os.makedirs(os.path.join(workdir, "scenarios"), exist_ok=True)
+    os.makedirs(os.path.join(workdir, "simulation_models"), exist_ok=True)
+    name = "ref_srv_%d" % stop
+    v = [X.aux("k", "1"),
+         '\t\t\t<flow name="f">\n\t\t\t\t<eqn>k</eqn>\n\t\t\t\t<non_negative/>\n\t\t\t</flow>\n',
+         '\t\t\t<stock name="s">\n\t\t\t\t<eqn>0</eqn>\n\t\t\t\t<inflow>f</inflow>\n\t\t\t</stock>\n']
+    with open(os.path.join(workdir, "simulation_models", name + ".stmx"), "w") as f:
+        f.write(X.document(name, v, start="1", stop=str(stop), dt="<dt>1</dt>"))
+    scen = {"sm": {"source": "simulation_models/%s.stmx" % name, "model": "simulation_models/%s" % name,
+                   "scenarios": {"base": ({"constants": {"k": 1.0}} if base_constants else {}), "high": {"constants": {"k": 5.0}}}}}
+    with open(os.path.join(workdir, "scenarios", "server.json"), "w") as f:
+        json.dump(scen, f)
+    return lambda: BPTK_Py.bptk()
+
+
 class Srv:
-    def __init__(self, stop=4, adapter=False, compress=False, token=None, unit="seconds", state_dir=None, base_constants=False, two=False, grid=(1.0, 1.0)):
+    def __init__(self, stop=4, adapter=False, compress=False, token=None, unit="seconds", state_dir=None, base_constants=False, two=False, grid=(1.0, 1.0),
+                 files=False):
         GRID[0], GRID[1] = float(grid[0]), float(grid[1])
+        self._filedir = None
+        if files:
+            import sys
+            self._filedir, self._oldcwd = tempfile.mkdtemp(prefix="vsrvfiles_"), os.getcwd()
+            os.chdir(self._filedir)
+            sys.path.insert(0, self._filedir)
         self.BPTK_Py = use_repo()
         self.srvmod = importlib.import_module("BPTK_Py.server.bptkServer")
         self.esamod = importlib.import_module("BPTK_Py.externalstateadapter.externalStateAdapter")
@@ -72,7 +100,14 @@ class Srv:
         self.esamod.datetime = self.clock
         self.stop, self.unit, self.token, self.compress = stop, unit, token, compress
         self.two = two
-        self.factory = make_factory(stop, base_constants, two, grid)
+        self.factory = make_factory(stop, base_constants, two, grid) if not files else make_file_factory(stop, base_constants, self._filedir)
+        self._created = []
+        inner = self.factory
+        def tracking_factory():
+            b = inner()
+            self._created.append(b)
+            return b
+        self.factory = tracking_factory
         self.own_dir = adapter and state_dir is None
         self.state_dir = (state_dir or tempfile.mkdtemp(prefix="vstate_")) if adapter else None
         self.ids = {}       # symbolic -> uuid
@@ -98,10 +133,21 @@ class Srv:
                     pass
             if self.app._bptk is not None:
                 self.app._bptk.destroy()
+            for b in self._created:         # also the objects of stopped / swept / lost instances (file monitors are threads)
+                try:
+                    b.destroy()
+                except Exception:
+                    pass
         finally:
             self.srvmod.datetime, self.esamod.datetime = self._saved
             if self.own_dir and self.state_dir:
                 shutil.rmtree(self.state_dir, ignore_errors=True)
+            if self._filedir:
+                import sys
+                os.chdir(self._oldcwd)
+                if self._filedir in sys.path:
+                    sys.path.remove(self._filedir)
+                shutil.rmtree(self._filedir, ignore_errors=True)
 
     # -- requests ---------------------------------------------------------------------------------
     def _hdr(self, cred="ok"):
